@@ -15,17 +15,17 @@ Variables (c : cfg) (dd : list string).
 Notation PR := (printable c dd).
 Notation W := (walk c dd).
 
-Definition built (d : dtree) : Prop := forall e, W (strip d) = Ok e -> expr_kf_ok e = true -> PR e = true.
+Definition built (d : dtree) : Prop := forall e, W (strip d) = Ok e -> PR e = true.
 
 Lemma args_pr (children : list dtree) : forall args,
-  all_ok (map W (map strip children)) = Ok args -> forallb expr_kf_ok args = true ->
+  all_ok (map W (map strip children)) = Ok args ->
   (forall ch, In ch children -> built ch) -> forallb PR args = true.
-Proof. induction children as [|ch children IH]; intros args H Hkf Hb.
+Proof. induction children as [|ch children IH]; intros args H Hb.
   - simpl in H. inversion H. reflexivity.
   - cbn [map all_ok] in H. destruct (W (strip ch)) as [x|] eqn:Wx; [|discriminate H].
     destruct (all_ok (map W (map strip children))) as [xs|] eqn:A; [|discriminate H]. inversion H; subst.
-    cbn [forallb] in *. apply andb_prop in Hkf as [K1 K2].
-    rewrite (Hb ch (or_introl eq_refl) x Wx K1), (IH xs eq_refl K2 (fun y Hy => Hb y (or_intror Hy))). reflexivity. Qed.
+    cbn [forallb].
+    rewrite (Hb ch (or_introl eq_refl) x Wx), (IH xs eq_refl (fun y Hy => Hb y (or_intror Hy))). reflexivity. Qed.
 
 Lemma all_ok_length {A} (l : list (res A)) r : all_ok l = Ok r -> List.length r = List.length l.
 Proof. revert r. induction l as [|[x|] l IH]; intros r H; simpl in H; try discriminate H.
@@ -47,7 +47,7 @@ Proof. intros Hk Hkn Hl Pa. cbn [printable]. rewrite Pa, Hkn. cbn [andb negb].
 (* ---- binary levels *)
 Lemma built_chain L d0 rest : wfn (DChain L d0 rest) = true -> built d0 -> (forall p, In p rest -> built (snd p)) ->
   built (DChain L d0 rest).
-Proof. intros Wf B0 Br e Hw Hkf. pose proof Wf as Wf'. simpl in Wf'.
+Proof. intros Wf B0 Br e Hw. pose proof Wf as Wf'. simpl in Wf'.
   apply andb_prop in Wf' as [Wf' Hrest]. apply andb_prop in Wf' as [Wf' _]. apply andb_prop in Wf' as [Wf' _].
   apply andb_prop in Wf' as [Hcl Hne]. rewrite forallb_forall in Hrest.
   assert (Hops : forall p, In p rest -> is_binop_at L (fst p) = true).
@@ -56,7 +56,7 @@ Proof. intros Wf B0 Br e Hw Hkf. pose proof Wf as Wf'. simpl in Wf'.
   assert (Hne' : rest' <> []). { unfold rest'. destruct rest; [discriminate Hne|discriminate]. }
   assert (Hops' : forall p, In p rest' -> is_binop_at L (fst p) = true).
   { intros p Hp. unfold rest' in Hp. apply in_map_iff in Hp as [q [<- Hq]]. exact (Hops q Hq). }
-  assert (Hb' : forall p x, In p rest' -> W (snd p) = Ok x -> expr_kf_ok x = true -> PR x = true).
+  assert (Hb' : forall p x, In p rest' -> W (snd p) = Ok x -> PR x = true).
   { intros p x Hp. unfold rest' in Hp. apply in_map_iff in Hp as [q [<- Hq]]. exact (Br q Hq x). }
   assert (Hsnd : map snd rest' = map strip (map snd rest)). { unfold rest'. rewrite !map_map. reflexivity. }
   cbn [strip] in Hw. fold rest' in Hw. unfold mk_chain in Hw. destruct rest' as [|p0 rest0] eqn:Er; [congruence|]. rewrite <- Er in *. clear Er p0 rest0.
@@ -72,16 +72,15 @@ Proof. intros Wf B0 Br e Hw Hkf. pose proof Wf as Wf'. simpl in Wf'.
     destruct (all_ok (map W (map strip (d0 :: map snd rest)))) as [args|] eqn:A; [|discriminate Hw].
     apply mk_expr_inv in Hw as [-> [Hkn _]]. apply kop_pr; [exact Hkop|exact Hkn| |].
     - rewrite (all_ok_length _ _ A), !map_length. destruct rest; [discriminate Hne|simpl; lia].
-    - apply (args_pr (d0 :: map snd rest) args A (kf_args _ _ _ _ _ Hkf)).
+    - apply (args_pr (d0 :: map snd rest) args A).
       intros ch [<-|Hch]; [exact B0|]. apply in_map_iff in Hch as [q [<- Hq]]. exact (Br q Hq). }
   (* the left-to-right chains *)
   assert (Hchain : In L [3; 8; 9] ->
             chain_fold c (W (strip d0)) (map (fun p => Some (fst p)) rest') (map W (map snd rest')) = Ok e -> PR e = true).
   { intros HL Hc. rewrite map_map in Hc. destruct (W (strip d0)) as [a0|] eqn:W0.
     2:{ destruct rest' as [|p r]; [congruence|]. simpl in Hc. discriminate Hc. }
-    destruct (chain_kf c dd L HL rest' a0 e Hops' Hc Hkf) as [K0 Kr].
-    apply (chain_pr c dd L HL rest' a0 e Hops' Hc (B0 a0 W0 K0)).
-    intros p x Hp Hx. exact (Hb' p x Hp Hx (Kr p x Hp Hx)). }
+    apply (chain_pr c dd L HL rest' a0 e Hops' Hc (B0 a0 W0)).
+    intros p x Hp Hx. exact (Hb' p x Hp Hx). }
   assert (Hshape : forall nm, level_name L = nm -> level_keeps L = true ->
             W (LNode nm (strip d0 :: inter2 rest')) = Ok e).
   { intros nm Hn Hk. rewrite Hn, Hk in Hw. exact Hw. }
@@ -108,7 +107,7 @@ Proof. intros Wf B0 Br e Hw Hkf. pose proof Wf as Wf'. simpl in Wf'.
       destruct (all_ok (map W (map strip (d0 :: map snd rest)))) as [args|] eqn:A; [|discriminate H8].
       apply mk_expr_inv in H8 as [-> [Hkn _]]. apply kop_pr; [exact (kops_of_plus_times o Ho)|exact Hkn| |].
       * rewrite (all_ok_length _ _ A), !map_length. destruct rest; [discriminate Hne|simpl; lia].
-      * apply (args_pr (d0 :: map snd rest) args A (kf_args _ _ _ _ _ Hkf)).
+      * apply (args_pr (d0 :: map snd rest) args A).
         intros ch [<-|Hch]; [exact B0|]. apply in_map_iff in Hch as [q [<- Hq]]. exact (Br q Hq).
     + apply Hchain; [simpl; tauto|exact H8].
   - (* term *)
@@ -122,7 +121,7 @@ Proof. intros Wf B0 Br e Hw Hkf. pose proof Wf as Wf'. simpl in Wf'.
       destruct (all_ok (map W (map strip (d0 :: map snd rest)))) as [args|] eqn:A; [|discriminate H9].
       apply mk_expr_inv in H9 as [-> [Hkn _]]. apply kop_pr; [exact (kops_of_plus_times o Ho)|exact Hkn| |].
       * rewrite (all_ok_length _ _ A), !map_length. destruct rest; [discriminate Hne|simpl; lia].
-      * apply (args_pr (d0 :: map snd rest) args A (kf_args _ _ _ _ _ Hkf)).
+      * apply (args_pr (d0 :: map snd rest) args A).
         intros ch [<-|Hch]; [exact B0|]. apply in_map_iff in Hch as [q [<- Hq]]. exact (Br q Hq).
     + apply Hchain; [simpl; tauto|exact H9]. Qed.
 
